@@ -146,7 +146,7 @@ pub fn run(ctx: &mut Ctx) {
         }
     }
     ctx.stratum("R-random-pairs", false);
-    let n = ctx.tier.pick(200_000u64, 20_000_000u64);
+    let n = ctx.tier.n(200_000, 20_000_000);
     for i in 0..n {
         if ctx.take() {
             let mut r = Rng::for_case(ctx.seed, "C16-R", i);
